@@ -154,6 +154,25 @@ CLAIMED["C20"] = _e(
     "CPython GIL gives sequential consistency at bytecode boundaries; asyncio modelled as a FIFO popped by the loop thread.",
     "DESIGN.md §3 C20",
 )
+CLAIMED["C11"] = _e(
+    "Lean 4 proof: cache invariant (each cache field is empty or equals the from-scratch rendering) over every history "
+    "of mutators, getter installs and reads; read shape and 200/207 selection; differential correspondence and an "
+    "uncached reference renderer (never calls to_HAP) on standalone and bridged real accessories",
+    "Kernel-checked cache-freshness and read-shape theorems for all histories; 400+ histories per quick run.",
+    "Validation outcomes and getter callbacks are parameters; single-threaded (the threaded window is C20); linked "
+    "services and re-entrant callbacks not modelled.",
+    "DESIGN.md §3 C11",
+)
+CLAIMED["C17"] = _e(
+    "Lean 4 proof: IID manager invariants (mutually inverse maps, monotone counter, no reissue), automatic aid search "
+    "terminates and avoids 1/7/duplicates, explicit duplicates rejected atomically, every listed (aid,iid) occurs once and "
+    "resolves identically for reads, writes and events, over every construction history; shipped service table "
+    "(regenerated) has distinct characteristic types by decide +kernel; differential correspondence on real accessories",
+    "Kernel-checked for every op sequence; ~580 construction histories per quick run incl. bridges crossing aid 7.",
+    "Objects are opaque fresh identities; sharing objects between services, adding characteristics after add_service and "
+    "custom IID managers are documented misuse, out of scope.",
+    "DESIGN.md §3 C17",
+)
 
 NOT_YET = "not yet built in this round (model + theorems + correspondence pending; see DESIGN.md §7 build order)"
 NA = {}
